@@ -282,7 +282,7 @@ def gen_scenario(rng):
 
 def cases(seed, tier):
     rng = random.Random('c17-%s' % seed)
-    n = 80 if tier == 'quick' else 600
+    n = 80 if tier == 'quick' else 160
     out = []
     for i in range(n):
         prng = random.Random(rng.getrandbits(64))
@@ -290,8 +290,8 @@ def cases(seed, tier):
                     'dfs': (30 if tier == 'quick' else 300)
                     if i % 2 == 0 else 0,
                     'random': 6 if tier == 'quick' else 30,
-                    'crash_schedules': 1 if tier == 'quick' else 4,
-                    'max_crash_points': 50 if tier == 'quick' else 300,
+                    'crash_schedules': 1 if tier == 'quick' else 2,
+                    'max_crash_points': 50 if tier == 'quick' else 150,
                     'pseed': prng.randint(0, 10 ** 6)})
     return out
 
